@@ -146,7 +146,8 @@ def run(ctx):
            {"deviation": "LazyOwnerMesh", "violates": r2.violated}]
     ctx.put("deviation_witnesses", wit)
     tasks = [make_task(rng) for _ in range(40 if quick else 600)]
-    results = sp.pool_map(dc.run_ddp_task, tasks)
+    results = sp.sim_map(dc.run_ddp_task, tasks, lambda r: bool(r.get("crash") or r.get("verdict") or r.get("param_mismatch") or any((r.get("errors") or {}).values())))
+    ctx.put("worlds_not_reproduced_on_rerun", sum(1 for r in results if r.get("_flaky_first_run")))
     cases, verdicts = evaluate(ctx, tasks, results)
     hist = {}
     for t, v in zip(tasks, verdicts):
